@@ -107,7 +107,10 @@ def _sized(t: Tally, entry, kind, data, r, k, case, progress=False):
     import contextlib
     import io as _io
     try:
-        with case_alarm(20), observed_warnings(), contextlib.redirect_stdout(_io.StringIO()):
+        # the progress display writes to standard output: a captured stream, or none at all (sys.stdout is None under pythonw, in services
+        # and with a closed descriptor 1, where print() is a silent no-op)
+        out_stream = None if (progress and (len(data) + (r or 0) + k) % 2) else _io.StringIO()
+        with case_alarm(20), observed_warnings(), contextlib.redirect_stdout(out_stream):
             if kind in ("gzip", "buffered-over-short-raw"):
                 from mc.checks.c02 import _file_family
                 src = _file_family(kind, data)
@@ -130,12 +133,14 @@ def _sized(t: Tally, entry, kind, data, r, k, case, progress=False):
     return True
 
 
-def _socket(t: Tally, entry, data, r, k, case, allow_close=True, max_execs=300_000):
+def _socket(t: Tally, entry, data, r, k, case, allow_close=True, max_execs=300_000, progress=False):
     horizon = len(data) // 7 + 2
+    import contextlib
+    import io as _io
 
     def drive(sock, on_item):
-        with observed_warnings():
-            g = _make_gen(entry, sock, r, k)
+        with observed_warnings(), contextlib.redirect_stdout(_io.StringIO()):
+            g = _make_gen(entry, sock, r, k, progress)
             items = []
             while True:
                 try:
@@ -217,6 +222,9 @@ def _task_streams(task):
                 for r in rs:
                     if L:
                         _socket(t, entry, stream, r, k, case)
+                if L and len(seq) <= 2:
+                    # the progress display with a source of unknown length (the clock is owned, so the state space stays finite)
+                    _socket(t, entry, stream, 3, k, {**case, "show_progress": True}, progress=True)
             t.programs += 1
             if len(seq) == 1 and k == 2 and seq[0] == 1:
                 t.sample({"stream": stream.hex(), "prefix": k, "cut_points": f"0..{L}",
@@ -390,7 +398,7 @@ def run(ctx):
         "programs": tally.programs,
         "exhaustive": True,
         "bound": (f"every sequence of 1..{max_len} palette packets x prefix lengths {ks} cut at EVERY byte offset, for bytes, "
-                  "BytesIO with every read size (and with show_progress=True), a gzip file object and a BufferedReader over a 3-bytes-per-read raw stream (read sizes None, 7), read/write file handles as a producer leaves them (w+b, TemporaryFile, r+b appended; 3..400 records written one write() each and not flushed; whole and cut by 1 or 9 bytes), and a scripted socket where the peer may close at every recv() choice point "
+                  "BytesIO with every read size (and with show_progress=True), a gzip file object and a BufferedReader over a 3-bytes-per-read raw stream (read sizes None, 7), read/write file handles as a producer leaves them (w+b, TemporaryFile, r+b appended; 3..400 records written one write() each and not flushed; whole and cut by 1 or 9 bytes), and a scripted socket where the peer may close at every recv() choice point (also with show_progress=True on the streams of <= 2 packets) "
                   "under every fragmentation; all byte strings of length <= 2; all strings of length <= "
                   f"{8 if ctx.quick else 9} over {{00,01,FF}}; both ccsds_generator and packet_generator(header-only definition)"),
         "rule": ("one evaluation = one complete execution of a generator over one (stream, cut point / close point, source, read size, "
@@ -415,9 +423,12 @@ def replay(case):
                 return min(n if n and n > 0 else remaining, remaining)
             sock = ScriptedSocket(data, decide, inspect=False)
             with observed_warnings():
-                g = _make_gen(case["entry"], sock, case["r"], case["k"])
+                import contextlib
+                import io as _io
+                g = _make_gen(case["entry"], sock, case["r"], case["k"], case.get("show_progress", False))
                 try:
-                    items, end = pull(g, horizon=len(data) // 7 + 2)
+                    with contextlib.redirect_stdout(_io.StringIO()):
+                        items, end = pull(g, horizon=len(data) // 7 + 2)
                 except Livelock:
                     items, end = [], "livelock"
             got = [_raw(case["entry"], i) for i in items]
